@@ -116,7 +116,8 @@ if __name__ == "__main__":
     spec = json.loads(sys.argv[1])
     items = P.make_items(spec["k"], spec["salt"])
     try:
-        r = H.parallel_add(items, P.cb_update, n_workers=spec["w"], **P.arg_combo(("hll",)),
+        r = H.parallel_add(list(range(len(items))), P.cb_update, n_workers=spec["w"],
+                           **P.arg_combo(("hll",)), table=items,
                            die=(spec["die_worker"], spec["die_at"], "real"), state={},
                            record_dir=spec["dir"])
         print("RESULT returned")
